@@ -120,7 +120,7 @@ PROPS = {
         unreached=["EntryWriter::finish (timestamp millis, namespace replication, dimension arrays)", "MetricsForDimensionSet::new (per-set prefix text)", "EntryDimensions cartesian product"],
     ),
     "C16": dict(
-        verus=[("emf_wav", {}), ("bgq", {}, ["consume", "report_validation_error"]), ("sinks", {}), ("emf_finish", {}, ["EntryWriter::finish"])],
+        verus=[("emf_wav", {}), ("bgq", {}, ["consume", "report_validation_error"]), ("sinks", {}), ("emf_finish", {}, ["EntryWriter::finish"]), ("fmtstream", {})],
         kani=["emf_buf"],
         technique="Verus contract + loop invariant on the real write_all_vectored retry loop (any writer behaviour), composed with Kani proof harnesses on the real advance_slices; Verus contracts on EntryWriter::finish, Receiver::consume, FlushImmediately::append, Tee",
         level_text="Deductive proof (Verus/z3) that write_all_vectored, for ANY sequence of writer answers (accept any 1..=offered bytes, Ok(0), Interrupted any number of times, hard error), delivers on success exactly the concatenation "
@@ -133,10 +133,10 @@ PROPS = {
         explanation="vectored write loop and sink error handling",
         assumptions=["io::Write implementations report the number of bytes they accepted truthfully and take nothing when they return an error",
                      "advance_slices meets its contract beyond 5 slices x 4 bytes (Kani harness bound)"],
-        unreached=["FormattedEntryIoStream::next (Format trait not modelled)"],
+        unreached=["FormattedMakeWriterEntryIoStream (tracing-subscriber MakeWriter)"],
     ),
     "C10": dict(
-        verus=[("aggregator", {}), ("agg_value", {}), ("worker", {})],
+        verus=[("aggregator", {}), ("agg_value", {}), ("worker", {}), ("mutexsink", {})],
         technique="Verus contracts on the real KeyedAggregator::{get_or_create_accum, merge, merge_ref, flush} over a ghost-map model of hashbrown's raw-entry API and drain, and on every per-field aggregation strategy's insert (Sum, KeepLast, MergeOptions, CopyWrapper, Flatten, Distribution)",
         level_text="Deductive proof (Verus/z3) for every storage state and every input: (keyed aggregator) a merged input lands in exactly one aggregate - the one stored under the key the input itself yields, created empty on first use - "
                    "appended to what that aggregate already held, every other aggregate and key untouched; flush emits, for every key held, that key's closed aggregate under its closed key and leaves the storage empty (any number of keys). "
@@ -144,9 +144,10 @@ PROPS = {
                    "distribution: the input is added to the histogram (what that records: C11). Lemmas lift the step to any input sequence (sum of u64 inputs, keep-last). "
                    "(worker sink) the body of the worker thread (the closure handed to thread::spawn, sliced out mechanically) merges every queued entry, answers a flush request only after a flush, and - once the channel reports every handle gone - "
                    "flushes one last time and returns without ever polling the channel again. "
-                   "NOT decided: the mutex-shared and tee sinks, cross-thread ordering of sends, the generated Merge / Key impls (proc macro).",
+                   "(mutex sink) MutexSink::merge hands every entry to the inner sink's merge (it blocks on the lock and never skips an entry). "
+                   "NOT decided: the tee sink, MutexSink::close, cross-thread ordering of sends, the generated Merge / Key impls (proc macro).",
         level_note="Trusted: Verus + z3; hashbrown's raw-entry API (from_hash with the equality closure, into_mut, insert_hashed_nocheck) and drain as a ghost map keyed by the key's abstract text (drain yields every pair exactly once); "
-                   "the Merge / Key / CloseValue / EntrySink trait contracts; `append` is witnessed by a predicate (one call per drained pair, not a multiplicity count). Type-level deviation: the stand-in `Key` trait's GAT is declared `'static` "
+                   "std::sync::Mutex as a stand-in (lock returns Ok - no poisoning - and its guard dereferences to the protected sink; try_lock may fail); the Merge / Key / CloseValue / EntrySink trait contracts; `append` is witnessed by a predicate (one call per drained pair, not a multiplicity count). Type-level deviation: the stand-in `Key` trait's GAT is declared `'static` "
                    "(this Verus' lifetime pass loses the 'static argument; lifetimes have no logical content). R3b, closure contract on the equality closure.",
         explanation="keyed aggregation: key selection, per-field strategies, flush",
         assumptions=["generated Merge / Key impls meet the trait contracts (static_key_matches compares the key text, merge appends the input)",
@@ -218,7 +219,7 @@ PROPS = {
         unreached=["EntryWriter::finish", "MetricsForDimensionSet::new"],
     ),
     "C15": dict(
-        verus=[("wrappers", {}), ("boxed", {}), ("wrappers2", {}), ("forceflag", {})],
+        verus=[("wrappers", {}), ("boxed", {}), ("wrappers2", {}), ("forceflag", {}), ("fmtstream", {})],
         technique="Verus trait contracts (ghost item log / effect witnesses) on the extracted real forwarding impls: Merged, MergedRef, RootEntry, &T / Option / Box / Arc for Entry and InflectableEntry (write and sample_group), &T / Box / Arc for Value, and every adapter method of the BoxEntry Dyn* bridge",
         level_text="Deductive proof (Verus/z3) that each wrapper's real write and sample_group bodies report exactly what its documented definition says: merged = first entry's items then second's (globals first), "
                    "references / Box / Arc / RootEntry = the inner entry's items, an absent Option nothing - same for sample groups; plus a composition lemma for nested wrappers. "
